@@ -29,6 +29,9 @@ def bnot (w a : Nat) : Nat := 2 ^ w - 1 - a % 2 ^ w
 def shl (w a b : Nat) : Nat := (a <<< b) % 2 ^ w
 def shr (a b : Nat) : Nat := a >>> b
 
+/-- `Instant::checked_add`: `lim` is the largest representable `Instant` (ns offset). -/
+def instantCheckedAdd (lim t d : Nat) : Option Nat := if t + d ≤ lim then some (t + d) else none
+
 /-- `unwrap`/`expect`: the panicking path yields `default`. -/
 def unwrap {α : Type} [Inhabited α] (o : Option α) : α := o.getD default
 
